@@ -234,13 +234,32 @@ class C12(Property):
         ann = lambda a, b: arr_of(AnnularDetector(a, b).detect(w))
         # --- flexible detector: stated bin width, bin r == annulus r, integrate_radial on stated edges == annulus
         fd = FlexibleAnnularDetector(step_size=c["step"], inner=inner, outer=outer)
-        f = fd.detect(w)
+        span = (outer if outer is not None else cut) - inner
+        want_nb = int(np.floor(span / c["step"] + 1e-7))  # whole steps between the limits
+        # a range shorter than one step has no bin: it must be rejected cleanly, eagerly and lazily
+        short = FlexibleAnnularDetector(step_size=c["step"], inner=inner, outer=inner + 0.4 * c["step"])
+        for ww, mode in ((w, "eager"), (w.ensure_lazy(), "lazy")):
+            try:
+                r = short.detect(ww)
+                if mode == "lazy":
+                    r.compute()
+                ctx.violation(f"flexible-short-range-not-rejected:{mode}", c, {"inner": inner, "outer": inner + 0.4 * c["step"]}); ok = False
+            except RuntimeError:
+                pass
+        try:
+            f = fd.detect(w)
+        except RuntimeError as e:
+            if want_nb >= 1:
+                ctx.violation("flexible-valid-range-rejected", c, {"inner": inner, "outer": outer, "step": c["step"], "whole_steps": want_nb, "error": str(e)})
+                return False
+            ctx.count("conf:range-shorter-than-one-step-rejected")
+            return ok
         fa = arr_of(f)
         nb = fa.shape[-2]
         if abs(f.radial_sampling - c["step"]) > 1e-12 or abs(f.radial_offset - inner) > 1e-12:
             ctx.violation("flexible-axis-metadata", c, {"radial_sampling": f.radial_sampling, "radial_offset": f.radial_offset}); ok = False
         eff_outer = (outer if outer is not None else cut)
-        if nb != int(np.floor(eff_outer - inner) / c["step"]):
+        if nb != want_nb:
             ctx.violation("flexible-bin-count", c, {"nbins": nb}); ok = False
         for r in sorted({0, nb // 2, nb - 1} if nb else ()):
             a = ann(inner + r * c["step"], inner + (r + 1) * c["step"])
